@@ -166,8 +166,8 @@ func checkC13(c *fw.Ctx) {
 		}
 	}
 	all := strings.Join(errConds, " ## ")
-	c.Check(strings.Contains(all, `#1 == "")`) || strings.Contains(all, `#1 != "")`), "3 body", "an X-Matrix header without origin is refused", c.P.Pos(read.Pos()), "", "no error return on an empty origin")
-	c.Check(strings.Contains(all, ".fields.Origin != gmsl/fclient.ParseAuthorization(") || strings.Contains(all, ".fields.Origin == gmsl/fclient.ParseAuthorization("), "3 body", "conflicting origins are refused", c.P.Pos(read.Pos()), "", "no error return for differing origins")
+	c.Expect(strings.Contains(all, `#1 == "")`) || strings.Contains(all, `#1 != "")`), "3 body", "an X-Matrix header without origin is refused", c.P.Pos(read.Pos()), "", "no error return under an empty-origin test was recognised in readHTTPRequest")
+	c.Expect(strings.Contains(all, ".fields.Origin != gmsl/fclient.ParseAuthorization(") || strings.Contains(all, ".fields.Origin == gmsl/fclient.ParseAuthorization("), "3 body", "conflicting origins are refused", c.P.Pos(read.Pos()), "", "no error return under a differing-origins test was recognised in readHTTPRequest")
 
 	// 4. VerifyHTTPRequest gates
 	rule := "4 verify"
